@@ -28,9 +28,9 @@ for line in table.splitlines()[2:]:
         cross.append(f"{cells[0]} (also by {', '.join(sorted(set(checks) - {own}))})")
 out = s.rstrip("\n") + "\n\n" + head
 out += "**Per round.**\n\n" + stats + "\n"
-out += ("Rounds 1–3: the repository's suite was run in full by the authors themselves (and re-run by the coordinator for rounds "
-        "4–6, column 'suite with change' below; 'skipped' there means the author's own full run is the record). One change "
-        "(C07-l) stopped breaking the property when defect D14 was repaired and is kept for the record only.\n\n")
+out += ("Rounds 1–3: the repository's suite was run in full by the authors themselves (their reports are the record); for rounds "
+        "4–6 the authors ran the relevant test files and the coordinator ran the full suite for every change (column 'suite with "
+        "change'). One change (C07-l) stopped breaking the property when defect D14 was repaired and is kept for the record only.\n\n")
 out += "**Caught by a check of another property** (own-property check silent or not the only one): " + "; ".join(cross) + ".\n\n"
 out += "**All changes.** (`seeded/<id>/notes.md` has what each needs to manifest; `meta.json` the commands and raw outcome.)\n\n"
 out += table
